@@ -475,7 +475,7 @@ def bfs(seed, depth, tier):
                     soft = [e]
                     outcome = None
                 for e in soft:
-                    key = e.key if e.key == OFF_TABLE_KEY else 'history:%s:%s:%s' % (snap.bc, op[0], e.key)
+                    key = e.key if e.key == OFF_TABLE_KEY else 'history:%s:%s:%s%s' % (snap.bc, op[0], e.key, ':unbunched-virtual-legs' if seed.get('unbunched') else '')
                     if key not in [v['key'] for v in viol]:
                         viol.append(dict(key=key, what='seed %r, history %r: %s' % (seed, h, e.what), case=dict(part='H', seed=seed, ops=h)))
                 if outcome is None:
